@@ -1414,6 +1414,10 @@ impl<'i, R: RuleType> ParserState<'i, R> {
         F: FnOnce(Box<Self>) -> ParseResult<Box<Self>>,
     {
         self = self.inc_call_check_limit()?;
+        #[cfg(pest_parser_pest_verif)]
+        crate::verif::emit(|| crate::verif::Event::LookaheadEnter {
+            positive: is_positive,
+        });
         let initial_lookahead = self.lookahead;
 
         self.lookahead = if is_positive {
@@ -1445,6 +1449,8 @@ impl<'i, R: RuleType> ParserState<'i, R> {
             }
         };
 
+        #[cfg(pest_parser_pest_verif)]
+        crate::verif::emit(|| crate::verif::Event::LookaheadExit);
         if is_positive {
             result_state
         } else {
